@@ -336,6 +336,9 @@ def headerFasta (a : Ascii) (sq : Sq) : Ascii × Sq × Status :=
 
 /-- `skip_fasta()` -/
 def skipFasta (a : Ascii) (sq : Sq) : Ascii × Sq × Status :=
+  -- make sure there are characters in the buffer, as header_fasta does (end_daemon can leave bpos == nc)
+  let (a, st0) := if a.nc == a.bpos then loadbuf a else (a, .ok)
+  if st0 != .ok then (a, sq, st0) else
   match a.bufGet a.bpos with
   | none => (a, sq, .fault)
   | some c =>
@@ -484,6 +487,7 @@ def endDaemonSkip (p : UInt8 → Bool) : Nat → Ascii → UInt8 → Ascii × UI
 
 def endDaemon (a : Ascii) (sq : Sq) : Ascii × Sq × Status :=
   if a.nc < 3 then (a.fail, sq, .eformat) else
+  if a.bpos + 2 > a.nc then (a.fail, sq, .eformat) else       -- both terminator characters must lie in the buffer (repair of end_daemon)
   match a.bufGet a.bpos with
   | none => (a, sq, .fault)
   | some c1 =>
@@ -805,7 +809,7 @@ def skipWsLoop : Nat → Ascii → UInt8 → Ascii × Status × UInt8
       if st == .fault then (a, .fault, c) else
       match a.bufGet a.bpos with
       | none => (a, .fault, c)
-      | some c' => if c' ≥ 128 then (a, .fault, c') else skipWsLoop fuel a c'
+      | some c' => skipWsLoop fuel a c'      -- a byte ≥ 0x80 is not white space: the loop ends on it
     else (a, .ok, c)
 
 def skipWhitespace (a : Ascii) : Ascii × Status :=
@@ -816,9 +820,9 @@ def skipWhitespace (a : Ascii) : Ascii × Status :=
   match a.bufGet a.bpos with
   | none => (a, .fault)
   | some c =>
-    if c ≥ 128 then (a, .fault) else      -- sqfp->inmap[(int) c] with a negative char
     let (a, st, c) := skipWsLoop (fuelOf a) a c
     if st != .ok then (a, st) else
+    if c ≥ 128 then (a, .ok) else         -- x = isascii(c) ? inmap[c] : ILLEGAL (repair): not EOD
     match a.inmap[c.toNat]? with
     | none => (a, .fault)
     | some x => if x == dsqEod then (a, .eod) else (a, .ok)
